@@ -991,7 +991,7 @@ func (multi *MultiEpoch) processSlotTransactions(
 								}
 							}
 
-							buffer.add(txResp.Slot, *txResp.Index, txResp)
+							buffer.add(txResp.Slot, txResp.GetIndex(), txResp)
 						}
 					}
 				}
